@@ -35,23 +35,35 @@ type settings struct {
 	workers     int
 	parsers     int
 	queue       int
+	namespace   string
+	filter      string // "none", "drop-tags", "drop-host", "drop-metric"
+	batch       int
+	heartbeat   bool
 }
 
 func (s settings) String() string {
-	return fmt.Sprintf("ignore-host=%v cloud-provider=%s default-tags=%q max-workers=%d max-parsers=%d max-queue-size=%d", s.ignoreHost, s.provider, s.defaultTags, s.workers, s.parsers, s.queue)
+	return fmt.Sprintf("ignore-host=%v cloud-provider=%s default-tags=%q max-workers=%d max-parsers=%d max-queue-size=%d namespace=%q filter=%s receive-batch-size=%d heartbeat=%v", s.ignoreHost, s.provider, s.defaultTags, s.workers, s.parsers, s.queue, s.namespace, s.filter, s.batch, s.heartbeat)
 }
 
-// identity computes what a datapoint / event with these tags from the rig's sender becomes after parser, cloud stage and
-// tag stage.
-func (s settings) identity(tags []string, event bool) ([]string, string) {
-	src := "127.0.0.1"
+// prefix is what the namespace puts in front of every metric name.
+func (s settings) prefix() string {
+	if s.namespace == "" {
+		return ""
+	}
+	return s.namespace + "."
+}
+
+// identity computes what a datapoint (of series number i) or an event with these tags from the rig's sender becomes after
+// parser, cloud stage and tag stage; dropped says the configured filter removes the metric.
+func (s settings) identity(i int, tags []string, event bool) (out []string, src string, dropped bool) {
+	src = "127.0.0.1"
 	tg := append([]string(nil), tags...)
 	if s.ignoreHost && !event {
 		src = ""
-		for i, x := range tg {
+		for j, x := range tg {
 			if strings.HasPrefix(x, "host:") {
 				src = x[5:]
-				tg = append(tg[:i], tg[i+1:]...)
+				tg = append(tg[:j], tg[j+1:]...)
 				break
 			}
 		}
@@ -62,15 +74,35 @@ func (s settings) identity(tags []string, event bool) ([]string, string) {
 			src = string(in.ID)
 		}
 	}
+	all := append(tg, s.defaultTags...)
+	if !event { // filters are a clean-up of metrics (FILTERING.md); events pass
+		switch s.filter {
+		case "drop-tags": // every metric: tags k:* go
+			var kept []string
+			for _, x := range all {
+				if !strings.HasPrefix(x, "k:") {
+					kept = append(kept, x)
+				}
+			}
+			all = kept
+		case "drop-host": // metric m0 only
+			if i == 0 {
+				src = ""
+			}
+		case "drop-metric": // metric m1 only
+			if i == 1 {
+				return nil, "", true
+			}
+		}
+	}
 	seen := map[string]bool{}
-	var out []string
-	for _, x := range append(tg, s.defaultTags...) {
+	for _, x := range all {
 		if !seen[x] {
 			seen[x] = true
 			out = append(out, x)
 		}
 	}
-	return out, src
+	return out, src, false
 }
 
 // Run is one generated case. prop is the property id used in failure signatures.
@@ -82,18 +114,34 @@ func Run(t *rapid.T, prop string) {
 		workers:     rapid.IntRange(1, 5).Draw(t, "max-workers"),
 		parsers:     rapid.IntRange(1, 3).Draw(t, "max-parsers"),
 		queue:       rapid.SampledFrom([]int{1, 10, 100}).Draw(t, "max-queue-size"),
+		namespace:   rapid.SampledFrom([]string{"", "", "ns"}).Draw(t, "namespace"),
+		filter:      rapid.SampledFrom([]string{"none", "none", "drop-tags", "drop-host", "drop-metric"}).Draw(t, "filter"),
+		batch:       rapid.SampledFrom([]int{1, 8}).Draw(t, "receive-batch-size"),
+		heartbeat:   rapid.Bool().Draw(t, "heartbeat"),
 	}
 	internalStatser := rapid.Bool().Draw(t, "internal-statser")
 	disableInternalEvents := rapid.Bool().Draw(t, "disable-internal-events")
 	var auto *rig.AutoInstances
-	cfg := rig.ServerConfig{Tune: func(srv *statsd.Server) {
+	cfg := rig.ServerConfig{Settings: map[string]interface{}{}, Tune: func(srv *statsd.Server) {
 		srv.IgnoreHost, srv.DefaultTags, srv.MaxWorkers, srv.MaxParsers, srv.MaxQueueSize = s.ignoreHost, gostatsd.Tags(append([]string(nil), s.defaultTags...)), s.workers, s.parsers, s.queue
+		srv.Namespace, srv.ReceiveBatchSize, srv.HeartbeatEnabled = s.namespace, s.batch, s.heartbeat
 		srv.DisableInternalEvents = disableInternalEvents
 		if internalStatser {
 			srv.StatserType = gostatsd.StatserInternal
 			srv.InternalNamespace = "statsd"
 		}
 	}}
+	switch s.filter {
+	case "drop-tags":
+		cfg.Settings["filters"] = []string{"f"}
+		cfg.Settings["filter"] = map[string]interface{}{"f": map[string]interface{}{"drop-tags": []string{"k:*"}}}
+	case "drop-host":
+		cfg.Settings["filters"] = []string{"f"}
+		cfg.Settings["filter"] = map[string]interface{}{"f": map[string]interface{}{"match-metrics": []string{s.prefix() + "m0"}, "drop-host": true}}
+	case "drop-metric":
+		cfg.Settings["filters"] = []string{"f"}
+		cfg.Settings["filter"] = map[string]interface{}{"f": map[string]interface{}{"match-metrics": []string{s.prefix() + "m1"}, "drop-metric": true}}
+	}
 	if s.provider != "none" {
 		delay := time.Duration(0)
 		if s.provider == "slow" {
@@ -140,16 +188,20 @@ func Run(t *rapid.T, prop string) {
 				line += "|#" + strings.Join(tags, ",")
 			}
 			lines = append(lines, line)
-			etags, esrc := s.identity(tags, false)
+			etags, esrc, dropped := s.identity(i, tags, false)
+			if dropped {
+				continue
+			}
+			full := s.prefix() + name
 			switch typ {
 			case "c":
-				want.AddCounter(model.MakeKey(gostatsd.COUNTER, name, etags, esrc), int64(v), 1)
+				want.AddCounter(model.MakeKey(gostatsd.COUNTER, full, etags, esrc), int64(v), 1)
 			case "ms":
-				want.AddTimer(model.MakeKey(gostatsd.TIMER, name, etags, esrc), []float64{float64(v)}, 1, 1)
+				want.AddTimer(model.MakeKey(gostatsd.TIMER, full, etags, esrc), []float64{float64(v)}, 1, 1)
 			case "s":
-				want.AddSet(model.MakeKey(gostatsd.SET, name, etags, esrc), map[string]struct{}{val: {}}, 1)
+				want.AddSet(model.MakeKey(gostatsd.SET, full, etags, esrc), map[string]struct{}{val: {}}, 1)
 			case "g":
-				want.AddGauge(model.MakeKey(gostatsd.GAUGE, name, etags, esrc), float64(v), 1) // lines of one datagram carry one timestamp: any of them may be the one kept when tag lists differ
+				want.AddGauge(model.MakeKey(gostatsd.GAUGE, full, etags, esrc), float64(v), 1) // lines of one datagram carry one timestamp: any of them may be the one kept when tag lists differ
 			}
 		}
 		d := strings.Join(lines, "\n")
@@ -170,7 +222,7 @@ func Run(t *rapid.T, prop string) {
 		}
 		sent = append(sent, line)
 		srv.Send(line)
-		etags, esrc := s.identity(tags, true)
+		etags, esrc, _ := s.identity(-1, tags, true)
 		sort.Strings(etags)
 		wantEvents = append(wantEvents, fmt.Sprintf("t%d src=%s tags=%q", i, esrc, etags))
 	}
@@ -183,7 +235,12 @@ func Run(t *rapid.T, prop string) {
 		ev.C().Excluded("server-did-not-flush-within-30s", 1)
 		t.Skip("no flush within 30s")
 	}
-	got := srv.Total("statsd.")
+	got := srv.Total()
+	for k := range got {
+		if !isOurs(k.Name, s.prefix()) {
+			delete(got, k) // internal metrics, heartbeat
+		}
+	}
 	// gauges: several lines of one datagram, the last one wins; the model's SetGaugeLast follows the same order
 	if d := model.Diff(got, want, model.Opts{IgnoreTimestamps: true}); d != "" {
 		if lostOnly(got, want) {
@@ -203,7 +260,7 @@ func Run(t *rapid.T, prop string) {
 			fail("series-under-two-keys", "a flushed map holds a series under two keys: %v; sent %q", dup, sent)
 		}
 		for k := range model.FromMap(mm) {
-			if strings.HasPrefix(k.Name, "statsd.") || strings.Contains(k.Name, "verif.sentinel") {
+			if !isOurs(k.Name, s.prefix()) {
 				continue
 			}
 			where[at{i / s.workers, k}]++
@@ -273,6 +330,15 @@ func Run(t *rapid.T, prop string) {
 	if ev.C().WantSample() {
 		ev.C().Sample(map[string]interface{}{"server": desc, "datagrams": sent})
 	}
+}
+
+// isOurs: the name is one of the generated series m<digit> (under the namespace), not an internal metric or a sentinel.
+func isOurs(name, prefix string) bool {
+	if !strings.HasPrefix(name, prefix+"m") {
+		return false
+	}
+	rest := name[len(prefix)+1:]
+	return len(rest) == 1 && rest[0] >= '0' && rest[0] <= '9'
 }
 
 func lostOnly(got, want model.Agg) bool {
